@@ -43,6 +43,8 @@ def main() -> int:
             "key_order": h([list(map(str, m.amplitudes)), list(map(str, m.parameter_defaults)), list(map(str, m.kinematic_variables)), list(m.components)]),
         }
 
+    permutated = {}
+
     def config_key(b):
         cfg = b.config
         st = None if cfg.stable_final_state_ids is None else sorted(cfg.stable_final_state_ids)
@@ -51,7 +53,9 @@ def main() -> int:
                       getattr(fn, "__qualname__", str(fn)) + ":" + ",".join(
                           str(getattr(getattr(fn, "__self__", None), a, "")) for a in ("phsp_factor", "form_factor", "energy_dependent_width")))
                      for d, fn in b.dynamics.items())
-        tops = sorted(str(t) for t in b.adapter.registered_topologies)
+        # the user's configuration of the adapter = whether permutate_registered_topologies() was requested; topologies
+        # that formulate() registers by itself (symmetrised chains) are not configuration
+        tops = ["permutated"] if permutated.get(id(b)) else []
         al = repr(cfg.spin_alignment)
         if " object at " in al:
             al = type(cfg.spin_alignment).__name__
@@ -59,7 +63,7 @@ def main() -> int:
                   nm.insert_parent_helicities, nm.insert_child_helicities, getattr(nm, "insert_ls_combinations", None), dyn, tops]), \
             {"stable": st, "scalar": cfg.scalar_initial_state_mass, "couplings": cfg.use_helicity_couplings, "align": al,
              "naming": [nm.insert_parent_helicities, nm.insert_child_helicities, getattr(nm, "insert_ls_combinations", None)],
-             "n_registered_topologies": len(tops), "n_dynamics_assigned": sum(1 for _, fn in b.dynamics.items() if getattr(fn, "__name__", "") != "create_non_dynamic")}
+             "permutated": bool(tops), "n_dynamics_assigned": sum(1 for _, fn in b.dynamics.items() if getattr(fn, "__name__", "") != "create_non_dynamic")}
 
     # snapshot monitor: objects handed out by define_symbols / functools caches must not change behind the caller's back
     import ampform.helicity.align.dpd as DPD
@@ -110,6 +114,7 @@ def main() -> int:
             C.apply_config(b, reaction, {**_base_cfg(b), "dynamics": [{"select": op["select"], "target": op["target"], "builder": op["kind"]}]})
         elif kind == "permutate":
             b.adapter.permutate_registered_topologies()
+            permutated[id(b)] = True
         elif kind == "formulate":
             key, desc = config_key(b)
             handed_out.clear()
